@@ -225,6 +225,40 @@ def make_models():
     def m_vec_new(ex, st, args, dest_ty, fname):
         return VecM(())
 
+    def alloc_bound(st):
+        supplied = 0
+        for fid, locs in list(st.heap.items()) + [(st.frame, st.locals)]:
+            for val in locs.values():
+                if isinstance(val, NetStream):
+                    supplied = max(supplied, len(val.inp))
+        return 65536 + 16 * supplied, supplied
+
+    def alloc_request(ex, st, n, what, ok_value):
+        """The allocation obligation for capacity requests (with_capacity / reserve): a request above 64 KiB + 16 x supplied is `ALLOC`."""
+        bound, supplied = alloc_bound(st)
+        if is_sym(n):
+            n = z3.simplify(n)
+            if z3.is_int_value(n):
+                n = n.as_long()
+        if not is_sym(n):
+            if n > bound:
+                return Panic("ALLOC: %s(%d) for a length the peer merely claims (%d bytes supplied)" % (what, n, supplied))
+            return ok_value
+        big = _simp(n > bound)
+        cases = []
+        if big is not False and ex.ctx.feasible(st.pc, z3bool(big)):
+            cases.append((big, Panic("ALLOC: %s(n) with a claimed n above %d (%d bytes supplied)" % (what, bound, supplied))))
+        small = _simp(b_not(big))
+        if small is not False:
+            cases.append((small, ok_value))
+        return cases
+
+    def m_vec_with_capacity(ex, st, args, dest_ty, fname):
+        return alloc_request(ex, st, args[0], "Vec::with_capacity", VecM(()))
+
+    def m_vec_reserve(ex, st, args, dest_ty, fname):
+        return alloc_request(ex, st, args[1], "Vec::reserve", UNIT)
+
     def m_vec_push(ex, st, args, dest_ty, fname):
         r = ref_to(ex, st, args[0])
         v = ex.deref(r, st)
@@ -763,7 +797,10 @@ def make_models():
         M(r"^String::from_utf8$", m_from_utf8),
         M(r"^Vec::<u8>::insert$", m_vec_insert),
         M(r"^std::vec::from_elem::<u8>$", m_from_elem),
-        M(r"^Vec::<.*>::(with_capacity|new)$", m_vec_new),
+        M(r"^Vec::<.*>::with_capacity$", m_vec_with_capacity),
+        M(r"^Vec::<.*>::(reserve|reserve_exact)$", m_vec_reserve),
+        M(r"^String::with_capacity$", lambda ex, st, args, dest_ty, fname: alloc_request(ex, st, args[0], "String::with_capacity", mkstr([], "s"))),
+        M(r"^Vec::<.*>::new$", m_vec_new),
         M(r"^<Vec<.*> as Default>::default$", m_vec_new),
         M(r"^Vec::<.*>::push$", m_vec_push),
         M(r"^<Vec<.*> as Deref(Mut)?>::deref(_mut)?$", m_deref_same),
